@@ -27,11 +27,17 @@ __all__ = ["ArrayMap", "PerCPUArrayMap"]
 from collections.abc import Sequence
 from itertools import chain
 from mmap import mmap
-from os import cpu_count
 from struct import pack, pack_into, unpack_from
 
 from .bpf import MapFlags, MapType, create_map, lookup_elem, update_elem
 from .ebpf import Expression, FuncId, Map, MemoryDesc, fmtsize
+
+
+def possible_cpus():
+    """the number of possible CPUs: per-CPU map values have one slot for each"""
+    with open("/sys/devices/system/cpu/possible") as f:
+        return sum(int(r.split("-")[-1]) - int(r.split("-")[0]) + 1
+                   for r in f.read().strip().split(","))
 
 
 class ArrayGlobalVarDesc(MemoryDesc):
@@ -217,7 +223,7 @@ class PerCPUArrayMap(ArrayMap):
         return PerCPUVarDesc(self, fmt)
 
     def create_map(self, ebpf, fd):
-        self.cpu_no = cpu_count()
+        self.cpu_no = possible_cpus()
         if fd is None:
             fd = create_map(MapType.PERCPU_ARRAY, 4, self.size, 1)
         setattr(ebpf, self.name, PerCPUReader(self, fd))
